@@ -543,6 +543,7 @@ RULES = {
     "R11b": Rule("R11b", "panic!(..) -> __panic()", "panic ! ( $$m )", "__panic ( )"),
     "R11c": Rule("R11c", "assert_eq!(A, B, ..) -> __assert(A == B)", "assert_eq ! ( $$a , $$b )", "__assert ( $$a == $$b )"),
     "R11e": Rule("R11e", "assert_eq!(A, B, MSG..) -> __assert(A == B)", "assert_eq ! ( $$a , $$b , $$m )", "__assert ( $$a == $$b )"),
+    "R11f": Rule("R11f", "X.expect(MSG) -> X.expect__()  (Option::expect: panics iff None; dual-world model)", ". expect ( $m )", ". expect__ ( )"),
     "R11d": Rule("R11d", "unreachable!() -> __unreachable()", "unreachable ! ( $$m )", "__unreachable ( )"),
     # std idioms over closures that this vstd cannot specify (default methods of Iterator): replaced by
     # helper functions whose contracts state the std semantics of the whole expression (prelude/std_specs.rs)
